@@ -490,6 +490,7 @@ func createSwitchStatementChunks(stmt *ast.SwitchStatement, statementIndex int, 
 	branchCases := []*switchCaseBranch{}
 	i := 0
 	processedDefaultCase := false
+	exitChunkID := -1
 	for i < len(stmt.Cases) {
 		switchCase := stmt.Cases[i]
 		destChunkID := -1
@@ -555,8 +556,24 @@ func createSwitchStatementChunks(stmt *ast.SwitchStatement, statementIndex int, 
 			// bodies, we want to completely omit even rendering the switch statement because
 			// it's a no-op. By early-returning here, we avoid adding the switch branchBehavior,
 			// which will result in the switch not being rendered in the output.
-			if len(branchCases) == 0 {
+			if len(branchCases) == 0 && !processedDefaultCase {
 				return remainingChunks, &jump{destChunkID: switchChunk.id}, returnID
+			}
+			if processedDefaultCase && !stmt.Cases[i].IsDefault {
+				// A trailing case without a body does nothing. It still needs its own
+				// 'case' line, otherwise its value would be handled by the default case.
+				if exitChunkID == -1 {
+					exitChunkID = returnID
+					if exitChunkID == -1 {
+						*chunkCounter++
+						exitChunkID = *chunkCounter
+						remainingChunks = append(remainingChunks, &chunk{id: exitChunkID, returnID: -1})
+					}
+				}
+				branchCases = append(branchCases, &switchCaseBranch{
+					comparisonValue: stmt.Cases[i].Value,
+					destChunkID:     exitChunkID,
+				})
 			}
 		} else if !stmt.Cases[i].IsDefault {
 			branchCases = append(branchCases, &switchCaseBranch{
